@@ -293,6 +293,38 @@ def run(p, led, tier):
             led.fail("C11-R6", key, where(f, f.node), f"{len(bad)} path(s): {bad[0]}", path=sorted(set(bad))[:8])
         else:
             led.ok("C11-R6", key, where(f, f.node), "never raises; first valid attempt wins and stops the cascade; otherwise invalid with error trace" + (" and confidence 0.0" if rcls is EFP else ""))
+    # a result is validated against the schema of *this* call: two different schemas that share module and name, same text
+    for fname, inner, rcls in (("fold", "Chaperone._attempt_fold", FP), ("fold_enhanced", "Chaperone._attempt_fold_enhanced", EFP)):
+        f = p.find_method(chap, fname)
+
+        def two(o):
+            it = Interp(p, o)
+            c = it.instantiate(chap, [], dict(silent=True, on_misfold=None))
+
+            def attempt(interp, args, kwargs):
+                sch = args[2]
+                tag = sch.tag
+                return interp.instantiate(rcls, [], dict(valid=True, structure=Unknown(f"validated_by_{tag}"), raw_peptide_chain=args[1], **({"confidence": 0.9, "strategy_used": args[3]} if rcls is EFP else {})))
+            it.stubs[inner] = attempt
+            A = Obj(None, {"__module__": "app.models", "__qualname__": "Record", "__name__": "Record"}, tag="schemaA")
+            B = Obj(None, {"__module__": "app.models", "__qualname__": "Record", "__name__": "Record"}, tag="schemaB")
+            raw = Unknown("raw")
+            try:
+                r1 = it.call_fi(f, [c, raw, A], {})
+                r2 = it.call_fi(f, [c, raw, B], {})
+            except PyRaise as e:
+                return dict(raised=repr(e.exc))
+            from ..fdai import _sym as __sym
+            return dict(s1=__sym(r1.fields.get("structure")), s2=__sym(r2.fields.get("structure")), v2=r2.fields.get("valid"))
+        paths = [r for _, r in explore(two, max_paths=300)]
+        key = f"Chaperone.{fname} ▸ same text, then a different schema with the same name"
+        bad = [r for r in paths if "raised" not in r and r["v2"] is True and "schemaB" not in r["s2"]]
+        if bad:
+            led.fail("C11-R1", key, where(f, f.node), f"the second fold reports valid with structure `{bad[0]['s2']}`, which was validated against the *other* schema",
+                     witness="fold(text, create_model('Record', a=int)) then fold(text, create_model('Record', b=str)) on one Chaperone returns an instance of the first model")
+        else:
+            led.ok("C11-R1", key, where(f, f.node), f"{len(paths)} path(s): the second result is validated by the second schema")
+
     # totality of the strategy implementations themselves on hostile text (may-raise table, exception classes vs handlers)
     esc = Escapes(res)
     for fname in ("fold", "fold_enhanced"):
